@@ -397,9 +397,11 @@ func check(h History) (*failure, int) {
 
 var (
 	nameCands = []string{"a.go", "a_1.go", "b.go", "a_2.go"}
-	contCands = []string{"X", "Y", "Z", "W", "V"}
+	contCands = []string{"X", "Y", "Z", "W", "V", "@@thriftgo_insertion_point(p)", "@@thriftgo_insertion_point(q)"}
 	ipCands   = []string{"p", "q"}
 )
+
+var contentTok = regexp.MustCompile(`(?s)@@thriftgo_insertion_point\([^)]*\)|.`)
 
 func rank(s *string, cands []string) int {
 	if s == nil {
@@ -568,6 +570,17 @@ func shrink(h History, f *failure) (History, *failure) {
 			}
 			rec(0, map[string]string{}, map[string]bool{})
 		}
+		// shorter contents: delete one token (a marker-like piece or a byte) at a time
+		for i := 0; i < len(cur) && !changed; i++ {
+			for j := 0; j < len(cur[i].Items) && !changed; j++ {
+				toks := contentTok.FindAllString(cur[i].Items[j].Content, -1)
+				for k := 0; k < len(toks) && len(toks) > 1 && !changed; k++ {
+					cand := cur.clone()
+					cand[i].Items[j].Content = strings.Join(toks[:k], "") + strings.Join(toks[k+1:], "")
+					changed = try(cand)
+				}
+			}
+		}
 		// simpler contents, item by item
 		for i := 0; i < len(cur) && !changed; i++ {
 			for j := 0; j < len(cur[i].Items) && !changed; j++ {
@@ -607,6 +620,26 @@ func shrink(h History, f *failure) (History, *failure) {
 				g, _ := check(cand)
 				if g != nil && g.class == curF.class {
 					cur, curF, changed = cand, g, true
+				}
+			}
+		}
+		// drop an item and rename one name in the same move (a_2.go-shaped witnesses reduce to a_1.go ones)
+		if !changed {
+			for _, n := range distinctStrings(cur, func(it Item) *string { return it.Name }) {
+				for _, c := range nameCands {
+					for i := 0; i < len(cur) && !changed; i++ {
+						for j := 0; j < len(cur[i].Items) && !changed; j++ {
+							n, c := n, c
+							cand := mapItems(cur, func(it Item) Item {
+								if it.Name != nil && *it.Name == n {
+									it.Name = sp(c)
+								}
+								return it
+							})
+							cand[i].Items = append(cand[i].Items[:j], cand[i].Items[j+1:]...)
+							changed = try(cand)
+						}
+					}
 				}
 			}
 		}
